@@ -15,11 +15,11 @@ import (
 type TypeExpr struct {
 	Params  []*TypeExpr // func
 	Results []*TypeExpr // func
-	Kind string // name, ptr, slice, map, set, func, iface
-	Pkg  string
-	Name string
-	Elem *TypeExpr
-	Key  *TypeExpr
+	Kind    string      // name, ptr, slice, map, set, func, iface
+	Pkg     string
+	Name    string
+	Elem    *TypeExpr
+	Key     *TypeExpr
 }
 
 func (t *TypeExpr) String() string {
@@ -155,30 +155,30 @@ type LemmaStep struct {
 }
 
 type Contract struct {
-	Kind     string // func method extern-func extern-method lemma
-	Pkg      string // package path (for func/method), filled by loader
-	PkgName  string
-	Recv     *TypeExpr
-	Name     string
-	Params   []Param // lemma / extern / spec func params
-	Results  []Param
-	Props    []string
-	Requires []*Clause
-	Ensures  []*Clause
-	Maintains []string // global invariants re-established on exit
-	PureFns  []string  // function-typed parameters whose calls are pure and deterministic (T6)
-	Defines  *Expr     // result of this pure, deterministic function is denoted by this spec application
-	MayPanic []*Clause // E may be nil (unconditional)
-	Assigns  []string
-	Loops    map[int]*LoopSpec
-	Inline   bool
-	Trusted  string
-	Pure     bool
-	Steps    []*LemmaStep
-	Level    *LevelSpec
-	NoBody   bool // do not verify body (extern/trusted)
-	File     string
-	Line     int
+	Kind      string // func method extern-func extern-method lemma
+	Pkg       string // package path (for func/method), filled by loader
+	PkgName   string
+	Recv      *TypeExpr
+	Name      string
+	Params    []Param // lemma / extern / spec func params
+	Results   []Param
+	Props     []string
+	Requires  []*Clause
+	Ensures   []*Clause
+	Maintains []string  // global invariants re-established on exit
+	PureFns   []string  // function-typed parameters whose calls are pure and deterministic (T6)
+	Defines   *Expr     // result of this pure, deterministic function is denoted by this spec application
+	MayPanic  []*Clause // E may be nil (unconditional)
+	Assigns   []string
+	Loops     map[int]*LoopSpec
+	Inline    bool
+	Trusted   string
+	Pure      bool
+	Steps     []*LemmaStep
+	Level     *LevelSpec
+	NoBody    bool // do not verify body (extern/trusted)
+	File      string
+	Line      int
 }
 
 type LevelSpec struct {
@@ -187,38 +187,38 @@ type LevelSpec struct {
 }
 
 type SpecFunc struct {
-	Name   string
-	Params []Param
-	Ret    *TypeExpr
-	Def    *Expr // macro definition (non-recursive), may be nil
-	Unfold *Expr // recursive definitional axiom body, instantiated per ground application
+	Name    string
+	Params  []Param
+	Ret     *TypeExpr
+	Def     *Expr // macro definition (non-recursive), may be nil
+	Unfold  *Expr // recursive definitional axiom body, instantiated per ground application
 	PkgName string
-	File   string
-	Line   int
+	File    string
+	Line    int
 }
 
 type Axiom struct {
-	Name string
-	E    *Expr
+	Name    string
+	E       *Expr
 	PkgName string
-	File string
-	Line int
+	File    string
+	Line    int
 }
 
 type TypeInv struct {
-	Type *TypeExpr
-	E    *Expr
+	Type    *TypeExpr
+	E       *Expr
 	PkgName string
-	File string
-	Line int
-	Text string
+	File    string
+	Line    int
+	Text    string
 }
 
 type IfaceMethod struct {
-	Iface  string // e.g. error, fmt.Formatter ; "*" for any interface having the method
-	Method string
-	E      *Expr // expression over self (and params p0..)
-	Params []Param
+	Iface   string // e.g. error, fmt.Formatter ; "*" for any interface having the method
+	Method  string
+	E       *Expr // expression over self (and params p0..)
+	Params  []Param
 	PkgName string
 }
 
@@ -233,13 +233,13 @@ type GlobalInv struct {
 
 type SpecFile struct {
 	GlobalInvs []*GlobalInv
-	Path      string
-	PkgName   string // package whose scope resolves unqualified names ("" for prelude)
-	Contracts []*Contract
-	Funcs     []*SpecFunc
-	Axioms    []*Axiom
-	TypeInvs  []*TypeInv
-	IfaceMs   []*IfaceMethod
+	Path       string
+	PkgName    string // package whose scope resolves unqualified names ("" for prelude)
+	Contracts  []*Contract
+	Funcs      []*SpecFunc
+	Axioms     []*Axiom
+	TypeInvs   []*TypeInv
+	IfaceMs    []*IfaceMethod
 }
 
 // ---------------- lexer ----------------
